@@ -176,7 +176,9 @@ def impl_call(name: str, r: List[Fr], s: List[str], light: bool = False) -> str:
             else:
                 p.add_label(list(new))
 
-        return _outcome(lambda: go(False))
+        if light:
+            return _outcome(lambda: go(False))
+        return _same({"list": _outcome(lambda: go(False)), "one-by-one": _outcome(lambda: go(True))})
     if name == "lengthRatio":
         return _outcome(lambda: Grading(1.0).add_chop(Chop(count=3, length_ratio=f[0])))
     if name == "annulus":
